@@ -36,6 +36,7 @@ type runner struct {
 	ent   [][][]*big.Rat // [user][validator][denom]: entitlement accrued so far (exact)
 	paid  [][][]*big.Int // [user][validator][denom]: paid so far
 	maxE  int
+	left  []int // per validator: who undelegated the last shares of the previous generation (-1 = nobody)
 }
 
 func newRunner(seed int64) *runner {
@@ -45,6 +46,9 @@ func newRunner(seed int64) *runner {
 		panic(err)
 	}
 	rn.maxE = int(me)
+	for v := 0; v < nVals; v++ {
+		rn.left = append(rn.left, -1)
+	}
 	for u := 0; u < nUsers; u++ {
 		rn.fresh = append(rn.fresh, make([]bool, nVals))
 		var er [][]*big.Rat
@@ -170,6 +174,27 @@ func (rn *runner) do(o op, tag string) outcome {
 	}
 	rn.st.Info(info)
 
+	if o.Kind == kUndelegate && o.V >= 0 && out.Class == 0 && post.Cells[o.V].T.Sign() == 0 && pre.Cells[o.V].T.Sign() > 0 {
+		rn.left[o.V] = o.U
+		for d := range denomNames {
+			if post.Cells[o.V].M[d].C.Sign() > 0 {
+				rn.st.Count("generation-exit:supply-zero-with-positive-multiplier")
+				break
+			}
+		}
+	}
+	if o.Kind == kDelegate && o.V >= 0 && out.Class == 0 && pre.Cells[o.V].T.Sign() == 0 {
+		for d := range denomNames {
+			if pre.Cells[o.V].M[d].C.Sign() > 0 {
+				if o.U != rn.left[o.V] {
+					rn.st.Count("generation-entry:other-account-opens-after-exit")
+				} else {
+					rn.st.Count("generation-entry:leaver-reopens")
+				}
+				break
+			}
+		}
+	}
 	// ghosts
 	if actor && o.V >= 0 && out.Class == 0 {
 		rn.fresh[o.U][o.V] = true
@@ -289,6 +314,32 @@ func (rn *runner) corpusZeroSaver() {
 	rn.do(op{Kind: kClaim, U: 0, V: 2}, tag)
 	rn.do(op{Kind: kClaim, U: 1, V: 1}, tag) // incumbent first
 	rn.do(op{Kind: kClaim, U: 2, V: 1}, tag)
+	rn.corpusGeneration()
+}
+
+// corpusGeneration: a whole generation of delegators leaves validator 1 (share supply back to
+// exactly 0, the module's delegation gone, the multipliers still positive), then an account that
+// never delegated to it opens the next generation, another one joins, rewards arrive through real
+// blocks and the first one claims, then the second. Whoever opens a generation must be
+// checkpointed at the historic multipliers like any other joiner.
+func (rn *runner) corpusGeneration() {
+	ms := time.Millisecond
+	tag := "corpus:generation"
+	m := bi(1_000_000)
+	rn.do(op{Kind: kUndelegate, U: 1, V: 1, Amt: m, Rcp: -3}, tag)
+	rn.do(op{Kind: kUndelegate, U: 2, V: 1, Amt: m, Rcp: 3}, tag) // the last one leaves: supply 0
+	d := rn.w.dump(rn.w.h.Ctx())
+	if d.Cells[1].T.Sign() == 0 && d.Cells[1].B == nil && d.Cells[1].M[0].C.Sign() > 0 {
+		rn.st.Count("corpus:supply-zero-with-positive-multiplier")
+	}
+	rn.do(op{Kind: kBlock, Dt: 1300 * ms}, tag)
+	rn.do(op{Kind: kDelegate, U: 3, V: 1, Amt: m}, tag) // never delegated to validator 1 before
+	rn.do(op{Kind: kDelegate, U: 0, V: 1, Amt: bi(3_000_000)}, tag)
+	rn.do(op{Kind: kBlock, Dt: 1300 * ms}, tag)
+	rn.do(op{Kind: kBlock, Dt: 1300 * ms, Fees: coins("urise", bi(60_000_000), "uusdc", bi(12_000_000))}, tag) // large: an inflated claim would be payable
+	rn.do(op{Kind: kBlock, Dt: 1300 * ms}, tag)
+	rn.do(op{Kind: kClaim, U: 3, V: 1}, tag)
+	rn.do(op{Kind: kClaim, U: 0, V: 1}, tag)
 }
 
 // Run generates n cases from seed, runs them on the real application and writes
